@@ -291,10 +291,18 @@ pub fn gen_actor(g: &mut G, k: &Knobs) -> ActorSpec {
     a
 }
 
-fn gen_client_op(g: &mut G, k: &Knobs, c: usize, n_actors: usize, own: &mut Vec<u32>, depth: u32) -> Op {
-    // handle choice: mostly the shared initial slot of a random actor, sometimes an own slot
-    let a = g.below(n_actors as u64) as usize;
-    let h = if !own.is_empty() && g.chance(400) { g.pick(own) } else { a as u32 };
+fn gen_client_op(g: &mut G, k: &Knobs, c: usize, n_actors: usize, own: &mut Vec<(u32, usize)>, depth: u32) -> Op {
+    // handle choice: mostly the shared initial slot of a random actor, sometimes an own slot.
+    // `a` is always the actor the chosen handle refers to: messages are generated for their real
+    // target, which keeps the static ask graph acyclic (asks only go to higher-numbered actors).
+    let mut a = g.below(n_actors as u64) as usize;
+    let h = if !own.is_empty() && g.chance(400) {
+        let (slot, act) = g.pick(own);
+        a = act;
+        slot
+    } else {
+        a as u32
+    };
     let w = [
         k.w_tell, k.w_ask, k.w_tellt, k.w_askt, k.w_askjoin, k.w_stop, k.w_kill, k.w_clone, k.w_drop, k.w_weak, k.w_erase, k.w_alive, k.w_ident, k.w_metrics, k.w_sleep, k.w_yield, k.w_cancel,
         k.w_fork, k.w_budget,
@@ -309,11 +317,12 @@ fn gen_client_op(g: &mut G, k: &Knobs, c: usize, n_actors: usize, own: &mut Vec<
         6 => Op::Kill { h },
         7 => {
             let to = 100 + (c as u32) * 10 + own.len() as u32 % 8;
-            own.push(to);
+            own.retain(|x| x.0 != to);
+            own.push((to, a));
             Op::Clone { h, to }
         }
         8 => {
-            if let Some(pos) = own.iter().position(|x| *x == h) {
+            if let Some(pos) = own.iter().position(|x| x.0 == h) {
                 own.remove(pos);
             }
             Op::Drop { h }
@@ -323,14 +332,16 @@ fn gen_client_op(g: &mut G, k: &Knobs, c: usize, n_actors: usize, own: &mut Vec<
             if g.chance(500) {
                 Op::Downgrade { h, to }
             } else {
-                let to2 = 100 + (c as u32) * 10 + own.len() as u32 % 8;
-                own.push(to2);
+                // the weak slot may point at any actor this client downgraded last: messages through the
+                // upgraded handle are generated without nested asks (see below), so no actor is recorded
+                let to2 = 100 + (c as u32) * 10 + 9;
                 Op::Upgrade { h: to, to: to2 }
             }
         }
         10 => {
             let to = 100 + (c as u32) * 10 + own.len() as u32 % 8;
-            own.push(to);
+            own.retain(|x| x.0 != to);
+            own.push((to, a));
             let kind = match g.below(6) {
                 0 => EraseKind::Tell,
                 1 => EraseKind::Ask,
@@ -389,7 +400,7 @@ pub fn generic(g: &mut G, k: &Knobs) -> Scenario {
     let n_clients = g.range(k.clients.0, k.clients.1) as usize;
     let end = if k.end == 3 { g.range(0, 2) as u32 } else { k.end };
     for c in 0..n_clients {
-        let mut own: Vec<u32> = Vec::new();
+        let mut own: Vec<(u32, usize)> = Vec::new();
         let mut ops = Vec::new();
         let n = g.range(k.ops.0, k.ops.1);
         for _ in 0..n {
@@ -397,9 +408,10 @@ pub fn generic(g: &mut G, k: &Knobs) -> Scenario {
         }
         if end == 2 {
             // drop everything this client created
-            for h in own.drain(..) {
+            for (h, _) in own.drain(..) {
                 ops.push(Op::Drop { h });
             }
+            ops.push(Op::Drop { h: 100 + (c as u32) * 10 + 9 });
         }
         sc.clients.push(ops);
     }
